@@ -20,7 +20,7 @@ RULE = ("TLC explores every pick order (= hash-map iteration order of the pendin
         " definitions referenced from other inputs, nested/top-level duplicates, dangling references, enum, inputs whose type is a"
         " definition) as parse_list input and as parse_str_with_list main+list [quick K=3/KW=2, thorough K=4 (core universe)/KW=3];"
         " the harness runs every scenario and seeded random sets of 2..5 inputs on the real crate for every permutation of the"
-        " input list x R runs with fresh hash seeds (quick R=20: a 2-way order dependence with the measured 0.4/0.6 split is missed"
+        " input list (5 inputs: 24 sampled permutations) x R runs with fresh hash seeds (quick R=20: a 2-way order dependence with the measured 0.4/0.6 split is missed"
         " with probability < 0.6^40 = 1.4e-9 per set of >= 2 inputs; thorough R=100, 50 for 4+ inputs) and Trace_MultiParse.tla judges"
         " each set. Non-trivial = sets with >= 2 inputs; distinct = distinct (form, inputs, main) hashes. The pick order itself is"
         " not observable (no hook), so order dependence is exposed by repetition, not by exhaustive replay.")
@@ -100,8 +100,9 @@ def selftest(work, events, model):
     variants = []
     a = json.loads(json.dumps(base)); a["obs"][0]["res"][0]["name"] += "x"; variants.append(("name", a))
     b = json.loads(json.dumps(base)); b["obs"][1]["res"].reverse(); variants.append(("order", b))
-    c = json.loads(json.dumps(base)); c["obs"][0].update(status="err", res=[], resolved="na"); variants.append(("status", c))
-    d = json.loads(json.dumps(base)); d["obs"][0]["status"] = "panic"; d["obs"][0]["res"] = []; variants.append(("panic", d))
+    c = json.loads(json.dumps(base)); c["obs"][0].update(status="err", res=[], dbg=[], dbgmain="", resolved="na"); variants.append(("status", c))
+    d = json.loads(json.dumps(base)); d["obs"][0].update(status="panic", res=[], dbg=[]); variants.append(("panic", d))
+    g = json.loads(json.dumps(base)); g["obs"][1]["dbg"][0] = "0" * 16; variants.append(("fingerprint", g))
     f = json.loads(json.dumps(base)); f["dat"][0]["dec"] = {"t": "null"}; variants.append(("decode", f))
     lines = []
     for i, (_, v) in enumerate([("clean", base)] + variants):
@@ -116,7 +117,7 @@ def selftest(work, events, model):
     if 0 in by and by[0].get("fail"):
         raise vf.ToolError(f"selftest: the uncorrupted event was rejected: {by[0]}")
     want = {1: "C20:result-differs", 2: "C20:result-differs", 3: "C20:outcome-vs-declarative", 4: "C20:panic",
-            5: "C20:cross-order-decode"}
+            5: "C20:order-dependent", 6: "C20:cross-order-decode"}
     for i, clause in want.items():
         if i not in by or clause not in by[i].get("fail", []):
             raise vf.ToolError(f"selftest: corrupted field '{variants[i - 1][0]}' was not rejected with {clause}: {by.get(i)}")
@@ -141,7 +142,7 @@ def run(prop, tier, seed, replay=None):
         model = model_check(rep, work, tier)
         lap("model checking done")
         scns = [strip(m) for m in model]
-        nrand = 400 if tier == "quick" else 4000
+        nrand = 400 if tier == "quick" else 3000
         gen = work / "rand.scn.ndjson"
         harness(["gen", "--seed", seed, "--count", nrand, "--out", gen])
         scns += [json.loads(l) for l in gen.read_text().splitlines() if l.strip()]
